@@ -166,12 +166,33 @@ def enclosing_lemma(vfile: Path, line: int):
     return name
 
 
-def audit_sources():
-    """Forbidden vernacular anywhere in coq/ (comments stripped). Variables and
-    Hypotheses are allowed only inside a Section."""
+def coq_deps(rel: str, seen=None):
+    """Transitive closure of `From OP Require ... a.b` / `Require ... OP.a.b` starting at coq/<rel>."""
+    seen = seen if seen is not None else []
+    if rel in seen or not (COQ / rel).exists():
+        return seen
+    seen.append(rel)
+    txt = strip_comments((COQ / rel).read_text())
+    for sent in re.split(r"\.(?=\s)", txt):
+        toks = sent.split()
+        if len(toks) >= 3 and toks[0] == "From" and toks[1] == "OP" and toks[2] == "Require":
+            for mod in toks[3:]:
+                if mod not in ("Import", "Export"):
+                    coq_deps(mod.replace(".", "/") + ".v", seen)
+        elif toks and toks[0] == "Require":
+            for mod in toks[1:]:
+                if mod.startswith("OP."):
+                    coq_deps(mod[3:].replace(".", "/") + ".v", seen)
+    return seen
+
+
+def audit_sources(files=None):
+    """Forbidden vernacular in the given coq/ files (default: all; comments stripped).
+    Variables and Hypotheses are allowed only inside a Section."""
     bad = []
-    for p in sorted(COQ.rglob("*.v")):
-        if ".work" in p.parts:
+    paths = sorted(COQ.rglob("*.v")) if files is None else [COQ / f for f in files]
+    for p in paths:
+        if ".work" in p.parts or not p.exists():
             continue
         txt = p.read_text()
         txt = strip_comments(txt)
